@@ -565,6 +565,18 @@ def run(ctx):
                                   'and the packed differences overflow a byte' % norm(st.targets[0])))
         else:
             ctx.undec('R-ABSMAX', norm(st.targets[0]), wpk, 'not in the max(abs(.)) form: %s' % norm(st.value)[:60])
+    # ---- R-PRECAFTER: the precision of the label belongs to the exponent that is stored, i.e. it is computed after the last change of NEXP
+    ctx.rule('R-PRECAFTER', 'pack2d: PREC is computed from NEXP after the last assignment to NEXP (the rounded-up exponent)')
+    stl = list(iter_stmts(pk.body))
+    precs = [i_ for i_, st in enumerate(stl) if isinstance(st, ast.Assign) and norm(st.targets[0]) == 'PREC' and 'NEXP' in norm(st.value)]
+    nexps = [i_ for i_, st in enumerate(stl) if isinstance(st, (ast.Assign, ast.AugAssign)) and any(norm(t) == 'NEXP' for t in (st.targets if isinstance(st, ast.Assign) else [st.target]))]
+    if not precs or not nexps:
+        ctx.undec('R-PRECAFTER', 'PREC', wpk, 'PREC / NEXP assignments not found')
+    elif min(precs) > max(nexps):
+        ctx.ok('R-PRECAFTER', 'PREC', wpk, 'after the last NEXP assignment')
+    else:
+        ctx.violation(Finding('R-PRECAFTER', RP, 'pack2d', stl[min(precs)], 'PREC is computed before NEXP gets its final value: whenever the exponent is rounded up the label carries half the precision that '
+                              'belongs to the stored exponent'))
     # ---- R-KSUM: the recorded checksum is the byte sum with end-around carry (modulo 255), as the ARL decoder recomputes it
     ctx.rule('R-KSUM', 'pack2d: the checksum is the sum of the packed bytes reduced modulo 255 (end-around carry), not masked to eight bits')
     ks = [st for st in iter_stmts(pk.body) if isinstance(st, ast.Assign) and norm(st.targets[0]) == 'KSUM' and not isinstance(st.value, ast.Constant)]
@@ -608,8 +620,25 @@ def run(ctx):
             ctx.undec('R-STAMPFMT', 'strptime', wri, 'format is not a literal')
             continue
         direct = re.findall(r'%(.)', fmt)
-        if direct == ['y', 'm', 'd', 'H'] and cut == 8:
-            ctx.ok('R-STAMPFMT', 'strptime', wri, "first 8 characters parsed with '%s'" % fmt)
+        # Fortran writes the stamp with I2 fields: ' 5 1 3 6' is 2005-01-03 06; blanks become zeros before the text is parsed
+        blank0 = False
+        for n_ in walk_expr(c.args[0]):
+            if isinstance(n_, ast.Name) and n_.id in renv:
+                pass
+        srcs = [c.args[0]] + [renv[x.id] for x in ast.walk(c.args[0]) if isinstance(x, ast.Name) and x.id in renv]
+        compit = [x for x in ast.walk(ri) if isinstance(x, (ast.ListComp, ast.GeneratorExp)) and any(y is c for y in ast.walk(x))]
+        for cp_ in compit:
+            it_ = cp_.generators[0].iter
+            srcs += [renv[x.id] for x in ast.walk(it_) if isinstance(x, ast.Name) and x.id in renv] + [it_]
+        for e_ in srcs:
+            if any(isinstance(x, ast.Call) and (dotted(x.func) or norm(x.func)).split('.')[-1] == 'replace' and len(x.args) >= 2 and
+                   any(isinstance(a_, ast.Constant) and a_.value in (b' ', ' ') for a_ in x.args) and any(isinstance(a_, ast.Constant) and a_.value in (b'0', '0') for a_ in x.args) for x in ast.walk(e_)):
+                blank0 = True
+        if direct == ['y', 'm', 'd', 'H'] and cut == 8 and blank0:
+            ctx.ok('R-STAMPFMT', 'strptime', wri, "blanks replaced by zeros, first 8 characters parsed with '%s'" % fmt)
+        elif direct == ['y', 'm', 'd', 'H'] and cut == 8:
+            ctx.violation(Finding('R-STAMPFMT', RP, 'arlpackedbit.__init__', api.stmt_of(c), 'the stamp is parsed without replacing blanks by zeros first: stamps written with Fortran I2 fields ( 5 1 3 6 for '
+                                  '2005-01-03 06) make strptime raise, so a correctly laid-out file cannot be opened'))
         else:
             ctx.violation(Finding('R-STAMPFMT', RP, 'arlpackedbit.__init__', api.stmt_of(c), "the stamp YYMMDDHHFF is parsed with '%s' from %s: the two characters after the hour are the forecast hour; read as part "
                                   'of the time they shift the reference date and the hour offsets of the records' % (fmt, 'its first %s characters' % cut if cut else 'the whole field')))
